@@ -442,7 +442,7 @@ func c09SecondCall(p *Prog, r *Report, e *engine) {
 		okk := onlyVia(hf.fn, in.Block(), fsNil)
 		r.Check(okk, "D2-entry-nil", fmt.Sprintf("%s:use#%d", hf.key, n), p.Pos(in.Pos()), "DirEntry used only when fserr == nil", "the callback dereferences its DirEntry on a path where fserr may be non-nil (the entry is nil when the root stat failed): panic")
 	}
-	r.Instances("D2-entry-nil", "uses of the DirEntry parameter", n, 3)
+	r.Instances("D2-entry-nil", "uses of the DirEntry parameter", n, 1)
 }
 
 func c09WalkerReturns(p *Prog, r *Report, e *engine) {
